@@ -186,4 +186,12 @@ def simplestFromFloat (simpler : Q → Q → Bool) (eb mb : Nat) (bits : Nat) :
         let s := if man.natAbs % 2 = 0 ∧ simpler hi s then hi else s
         pure (some (some (mulSign s (decide (man < 0)))))
 
+/-- the documented order of `RBig::is_simpler_than` / `RBig::simplest_in`: smaller denominator
+    first, then smaller numerator magnitude, then positive before negative (lexicographic) -/
+def simplerSpec (a b : Q) : Bool :=
+  decide (a.den < b.den) ||
+    (decide (a.den = b.den) &&
+      (decide (a.num.natAbs < b.num.natAbs) ||
+        (decide (a.num.natAbs = b.num.natAbs) && decide (0 < a.num ∧ b.num < 0))))
+
 end Dashu.Model.Ratio
